@@ -242,6 +242,9 @@ func (c *C) orderFlow(fn *ssa.Function, reset func(ssa.Instruction) bool, allEdg
 				if _, isDefer := in.(*ssa.Defer); !isDefer {
 					if n := callName(ci); n != "" {
 						s["C|"+n] = true
+						if k := recordKind(ci); k != "" {
+							s["C|"+n+"#"+k] = true
+						}
 					}
 					// a first-party helper: what holds at every one of its returns holds after the call
 					// (helpers that report an error are summarised on their success edge instead, see edge1)
@@ -288,6 +291,15 @@ func (c *C) orderFlow(fn *ssa.Function, reset func(ssa.Instruction) bool, allEdg
 						s["OK|"+n] = true
 					} else {
 						s["ERR|"+n] = true
+					}
+				}
+				for _, call := range errSourceCalls(x) {
+					if k := recordKind(call); k != "" {
+						if isNil {
+							s["OK|"+callName(call)+"#"+k] = true
+						} else {
+							s["ERR|"+callName(call)+"#"+k] = true
+						}
 					}
 				}
 				if isNil {
@@ -455,6 +467,9 @@ func retResults(ret *ssa.Return) [][]ssa.Value {
 						out[i] = append(out[i], st.Val)
 					}
 				}
+				if len(out[i]) == 0 {
+					out[i] = []ssa.Value{v} // a record built field by field (composite literal), not a spilled result
+				}
 				continue
 			}
 		}
@@ -465,29 +480,72 @@ func retResults(ret *ssa.Return) [][]ssa.Value {
 
 func (c *C) checkOrder(rule string, obs []ordOb) {
 	flows := map[string]*OrderFlow{}
-	for _, ob := range obs {
-		fn := c.P.Func(ob.Pkg, ob.Fn)
-		if fn == nil {
-			c.Undecided(rule, "anchor "+ob.Pkg+" "+ob.Fn)
-			continue
+	vocabOf := func(fnTop *ssa.Function, ob ordOb) []string {
+		var vocab []string
+		for _, o2 := range obs {
+			if o2.Pkg == ob.Pkg && o2.Fn == ob.Fn && o2.AllEdges == ob.AllEdges {
+				vocab = append(vocab, o2.NeedAll...)
+				vocab = append(vocab, o2.NeedAny...)
+				vocab = append(vocab, o2.Unless...)
+				vocab = append(vocab, o2.IfMay...)
+			}
 		}
-		fk := fmt.Sprint(fn.String(), ob.AllEdges)
+		return vocab
+	}
+	// evalIn evaluates one obligation inside fn; prefix holds the facts known to hold when fn is entered (used when the
+	// program point the obligation talks about lives in a helper of the function it names)
+	var evalIn func(fn *ssa.Function, ob ordOb, vocab []string, prefix Set, depth int) (int, []string)
+	evalIn = func(fn *ssa.Function, ob ordOb, vocab []string, prefix Set, depth int) (int, []string) {
+		fk := fmt.Sprint(fn.String(), ob.AllEdges, strings.Join(vocab, ","))
 		of := flows[fk]
 		if of == nil {
-			var vocab []string
-			for _, o2 := range obs {
-				if o2.Pkg == ob.Pkg && o2.Fn == ob.Fn && o2.AllEdges == ob.AllEdges {
-					vocab = append(vocab, o2.NeedAll...)
-					vocab = append(vocab, o2.NeedAny...)
-					vocab = append(vocab, o2.Unless...)
-					vocab = append(vocab, o2.IfMay...)
-				}
-			}
 			of = c.orderFlow(fn, nil, ob.AllEdges, vocab...)
 			flows[fk] = of
 		}
 		matched := 0
 		var bad []string
+		// the facts at a call of a helper, as a prefix for an evaluation inside the helper
+		prefixAt := func(in ssa.Instruction) (Set, bool) {
+			states, live := of.States(in)
+			if !live {
+				return nil, false
+			}
+			var inter Set
+			for _, st := range states {
+				cur := Set{}
+				for f := range prefix {
+					cur[f] = true
+				}
+				for f := range st {
+					if strings.HasPrefix(f, "C|") || strings.HasPrefix(f, "W|") || strings.HasPrefix(f, "OK|") || f == "SEND" {
+						cur[f] = true
+					}
+				}
+				if inter == nil {
+					inter = cur
+				} else {
+					for f := range inter {
+						if !cur[f] {
+							delete(inter, f)
+						}
+					}
+				}
+			}
+			if inter == nil {
+				inter = Set{}
+			}
+			// the call itself has happened once the helper is entered
+			if ci, ok := in.(ssa.CallInstruction); ok {
+				if n := callName(ci); n != "" {
+					inter["C|"+n] = true
+				}
+			}
+			return inter, true
+		}
+		helperOK := func(cf *ssa.Function) bool {
+			return cf != nil && cf != fn && cf.Blocks != nil && cf.Pkg != nil && depth < 2 &&
+				(firstParty(cf) || strings.HasPrefix(cf.Pkg.Pkg.Path(), "go.etcd.io/etcd/"))
+		}
 		for _, b := range fn.Blocks {
 			for _, in := range b.Instrs {
 				hit := false
@@ -508,6 +566,22 @@ func (c *C) checkOrder(rule string, obs []ordOb) {
 							for _, v := range last {
 								if isNilConst(v) {
 									hit = true
+								}
+							}
+							// `return helper(...)`: the nil returns of the helper are the nil returns of this function
+							onErrEdge := len(b.Preds) == 1 && IsErrEdge(b.Preds[0], b)
+							if !hit && len(last) == 1 && !onErrEdge {
+								for _, call := range errSourceCalls(last[0]) {
+									if call.Block() != b {
+										continue // not `return helper(...)` but a value tested earlier
+									}
+									if cf := call.Call.StaticCallee(); helperOK(cf) && returnsError(cf) {
+										if pre, live := prefixAt(call); live {
+											m2, b2 := evalIn(cf, ob, vocab, pre, depth+1)
+											matched += m2
+											bad = append(bad, b2...)
+										}
+									}
 								}
 							}
 						}
@@ -547,7 +621,17 @@ func (c *C) checkOrder(rule string, obs []ordOb) {
 					continue
 				}
 				matched++
-				for _, must := range states {
+				for _, st := range states {
+					must := st
+					if len(prefix) > 0 {
+						must = Set{}
+						for f := range st {
+							must[f] = true
+						}
+						for f := range prefix {
+							must[f] = true
+						}
+					}
 					if len(ob.IfMay) > 0 {
 						any := false
 						for _, f := range ob.IfMay {
@@ -588,6 +672,33 @@ func (c *C) checkOrder(rule string, obs []ordOb) {
 				}
 			}
 		}
+		// the program point lives in a helper (a call:/store: obligation whose target moved out of the named function)
+		if matched == 0 && (strings.HasPrefix(ob.At, "call:") || strings.HasPrefix(ob.At, "store:")) {
+			for _, b := range fn.Blocks {
+				for _, in := range b.Instrs {
+					call, ok := in.(*ssa.Call)
+					if !ok {
+						continue
+					}
+					if cf := callee(call); helperOK(cf) {
+						if pre, live := prefixAt(call); live {
+							m2, b2 := evalIn(cf, ob, vocab, pre, depth+1)
+							matched += m2
+							bad = append(bad, b2...)
+						}
+					}
+				}
+			}
+		}
+		return matched, bad
+	}
+	for _, ob := range obs {
+		fn := c.P.Func(ob.Pkg, ob.Fn)
+		if fn == nil {
+			c.Undecided(rule, "anchor "+ob.Pkg+" "+ob.Fn)
+			continue
+		}
+		matched, bad := evalIn(fn, ob, vocabOf(fn, ob), nil, 0)
 		detail := strings.Join(bad, "; ")
 		if matched == 0 {
 			detail = "no program point matches '" + ob.At + "' any more: the obligation cannot be checked (undecided)"
@@ -599,7 +710,6 @@ func (c *C) checkOrder(rule string, obs []ordOb) {
 		c.Add(rule, fnName(fn), ob.What+" ["+ob.At+" needs "+need+"]", fn.Pos(), len(bad) == 0 && matched > 0, detail)
 	}
 }
-
 
 func returnsError(fn *ssa.Function) bool {
 	r := fn.Signature.Results()
@@ -654,10 +764,10 @@ var summaryDepth int
 // return (onlyNil: to a return whose error result is nil). Facts about branch conditions are not exported: their names
 // refer to the helper's own variables. Recursion and depth are bounded; an unanalysable helper exports nothing.
 func (c *C) helperSummary(fn *ssa.Function, onlyNil bool, allEdges bool, vocab []string) Set {
-	if fn == nil || fn.Blocks == nil || !(firstParty(fn) || strings.HasPrefix(fn.Pkg.Pkg.Path(), "go.etcd.io/etcd/")) || summaryDepth >= 2 {
+	if fn == nil || fn.Blocks == nil || fn.Pkg == nil || summaryDepth >= 2 {
 		return nil
 	}
-	if fn.Pkg == nil {
+	if !(firstParty(fn) || strings.HasPrefix(fn.Pkg.Pkg.Path(), "go.etcd.io/etcd/")) {
 		return nil
 	}
 	key := fmt.Sprintf("%s|%v|%v|%s", fn.String(), onlyNil, allEdges, strings.Join(vocab, ","))
@@ -712,6 +822,11 @@ func (c *C) helperSummary(fn *ssa.Function, onlyNil bool, allEdges bool, vocab [
 					tail["OK|"+n] = true
 				}
 				for _, call := range errSourceCalls(vs[0]) {
+					if k := recordKind(call); k != "" {
+						tail["OK|"+callName(call)+"#"+k] = true
+					}
+				}
+				for _, call := range errSourceCalls(vs[0]) {
 					if cf := call.Call.StaticCallee(); cf != nil && cf != fn {
 						for f := range c.helperSummary(cf, true, allEdges, vocab) {
 							tail[f] = true
@@ -743,4 +858,32 @@ func (c *C) helperSummary(fn *ssa.Function, onlyNil bool, allEdges bool, vocab [
 	}
 	c.sumMemo[key] = inter
 	return inter
+}
+
+
+// recordKind: for a call that encodes a WAL record built in place (encode(&walpb.Record{Type: K, ...})), the constant K.
+func recordKind(ci ssa.CallInstruction) string {
+	if callName(ci) != "encode" {
+		return ""
+	}
+	for _, a := range ci.Common().Args {
+		al, ok := a.(*ssa.Alloc)
+		if !ok || namedOf(al.Type()) != "Record" || al.Referrers() == nil {
+			continue
+		}
+		for _, r := range *al.Referrers() {
+			fa, ok := r.(*ssa.FieldAddr)
+			if !ok || fieldName(fa) != "Type" || fa.Referrers() == nil {
+				continue
+			}
+			for _, rr := range *fa.Referrers() {
+				if st, ok := rr.(*ssa.Store); ok && st.Addr == ssa.Value(fa) {
+					if k, ok := constInt(st.Val); ok {
+						return fmt.Sprint(k)
+					}
+				}
+			}
+		}
+	}
+	return ""
 }
